@@ -8,7 +8,7 @@ from bumble import hci
 from bumble.keys import PairingKeys
 
 from pyvc.contracts import Bool, Bytes, Const, Inst, Int, Opt, contract, lemma, model
-from pyvc.ext_c15 import (AnyDyn, DynDict, OptDyn, SymStr, forall_items, hexs, is_bool, is_dict, is_hexstr, is_int, put, unhex)
+from pyvc.ext_c15 import (AnyDyn, DynDict, OptDyn, SymStr, forall_items, hexs, is_bool, is_dict, is_hexstr, is_int, put, put_opt, unhex)
 
 KEY_NAMES = ('ltk', 'ltk_central', 'ltk_peripheral', 'irk', 'csrk', 'link_key')
 
@@ -62,15 +62,15 @@ def wf_db(db):
 # what the dict image of a key set is (written from the class docstring / field list, not from the code)
 # ---------------------------------------------------------------------------
 def spec_key_dict(k):
-    d0 = {'value': hexs(k.value), 'authenticated': k.authenticated}
-    d1 = put(d0, 'ediv', k.ediv) if k.ediv is not None else d0
-    d2 = put(d1, 'rand', hexs(k.rand)) if k.rand is not None else d1
-    return d2
+    d = {'value': hexs(k.value), 'authenticated': k.authenticated}
+    d = put_opt(d, 'ediv', k.ediv)
+    d = put_opt(d, 'rand', hexs(k.rand) if k.rand is not None else None)
+    return d
 
 
 def spec_keys_dict(p):
     d = {}
-    d = put(d, 'address_type', p.address_type) if p.address_type is not None else d
+    d = put_opt(d, 'address_type', p.address_type)
     if p.ltk is not None:
         d = put(d, 'ltk', spec_key_dict(p.ltk))
     if p.ltk_central is not None:
@@ -83,7 +83,7 @@ def spec_keys_dict(p):
         d = put(d, 'csrk', spec_key_dict(p.csrk))
     if p.link_key is not None:
         d = put(d, 'link_key', spec_key_dict(p.link_key))
-    d = put(d, 'link_key_type', p.link_key_type) if p.link_key_type is not None else d
+    d = put_opt(d, 'link_key_type', p.link_key_type)
     return d
 
 
@@ -143,3 +143,50 @@ def lemma_key_roundtrip(k):
 
 
 lemma('key_roundtrip', lemma_key_roundtrip, prop='C15', params=dict(k=KEY), inline=['PairingKeys.Key.to_dict', 'PairingKeys.Key.from_dict'])
+
+K_TO = 'bumble.keys:PairingKeys.Key.to_dict'
+K_FROM = 'bumble.keys:PairingKeys.Key.from_dict'
+
+contract(
+    'bumble.keys:PairingKeys.key_from_dict',
+    prop='C15',
+    params=dict(cls=Const(PairingKeys), keys_dict=DynDict, key_name=SymStr),
+    requires=lambda keys_dict, key_name: [key_name not in keys_dict or wf_key(keys_dict[key_name])],
+    result=lambda keys_dict, key_name: spec_key_from(keys_dict, key_name),
+    modifies=[],
+    uses=[K_FROM],
+)
+KFD = 'bumble.keys:PairingKeys.key_from_dict'
+
+contract(
+    'bumble.keys:PairingKeys.to_dict',
+    prop='C15',
+    params=dict(self=KEYS),
+    result=lambda self: spec_keys_dict(self),
+    ensures=lambda res: [wf_entry(res)],
+    ensures_names=['image-is-a-well-formed-entry'],
+    modifies=[],
+    uses=[K_TO],
+)
+
+contract(
+    'bumble.keys:PairingKeys.from_dict',
+    prop='C15',
+    params=dict(cls=Const(PairingKeys), keys_dict=DynDict),
+    requires=lambda keys_dict: [wf_entry(keys_dict)],
+    result=lambda keys_dict: spec_keys_of(keys_dict),
+    modifies=[],
+    uses=[KFD],
+)
+P_TO = 'bumble.keys:PairingKeys.to_dict'
+P_FROM = 'bumble.keys:PairingKeys.from_dict'
+
+
+def lemma_keys_roundtrip(p):
+    """from_dict(to_dict(p)) == p for every combination of present / absent fields"""
+    d = p.to_dict()
+    p2 = PairingKeys.from_dict(d)
+    assert p2 == p
+
+
+lemma('keys_roundtrip', lemma_keys_roundtrip, prop='C15', params=dict(p=KEYS), uses=[P_TO, P_FROM])
